@@ -36,7 +36,7 @@ MANIFEST = {"technique": 'runtime monitoring: FS-call monitor (P-readonly on ref
 TIME_CAP = {"quick": 60, "thorough": 600}
 
 NAMES = ["None", "plain", "my project, v2!", "name with 'quotes' # and = sign"]
-WSDIRS = ["absent", "workspace", "ws_custom", "data/ws", "collide", "collide_empty"]
+WSDIRS = ["absent", "workspace", "ws_custom", "data/ws", "data/workspace", "collide", "collide_empty"]
 VERSIONS = ["absent", "0", "1", "3", "10"]
 
 
@@ -103,7 +103,7 @@ def build(ctx, case):
         with open(os.path.join(root, ".signac_shell_history"), "w") as f:
             f.write("project.find_jobs()\n")
     ws = case["ws"]
-    wsname = {"absent": None, "workspace": "workspace", "ws_custom": "ws_custom", "data/ws": "data/ws",
+    wsname = {"absent": None, "workspace": "workspace", "ws_custom": "ws_custom", "data/ws": "data/ws", "data/workspace": "data/workspace",
               "collide": "ws_custom", "collide_empty": "ws_custom"}[ws]
     if wsname not in (None, "workspace"):
         os.makedirs(os.path.dirname(os.path.join(root, wsname)) or root, exist_ok=True)
